@@ -34,6 +34,11 @@ def is_num(x):
     return isinstance(x, (int, float)) and not isinstance(x, bool) and x == x
 
 
+def _finite(x):
+    """Not a float nan/inf (ints, Fractions, Decimals and other objects pass)."""
+    return not isinstance(x, float) or (x == x and abs(x) != float("inf"))
+
+
 def count_le(arr, val):
     """Number of edges not greater than *val* (the statement, literally)."""
     n = 0
@@ -269,6 +274,16 @@ def _check_fill(h, coord, weight, pre):
     C = unify_coord(coord)
     if len(C) != dim or not all(is_num(c) for c in C):
         counters["skipped_fill_non_numeric"] += 1
+        return
+    if not _finite(weight) or not _finite(oor0) or not all(_finite(c) for c in flat0):
+        # nan / inf weights or contents (the repository's hypothesis tests fill them): NaN is
+        # unequal to itself, so "which cells changed" has no answer; outside the domain
+        counters["skipped_fill_non_finite"] += 1
+        sh = _shadow.get(id(h))
+        if sh is not None and sh.ref() is h:
+            sh.numeric = False
+            sh.last_flat = flat_bins(h.bins, dim)
+            sh.last_oor = h.n_out_of_range
         return
     flat1 = flat_bins(h.bins, dim)
     oor1 = h.n_out_of_range
